@@ -12,6 +12,14 @@ def build(P):
     D.externals(P.reg)
     R.abstract_arn(P.reg)
     P.verify(D.TD + "TaskDispatcher.handle_rpcmessage_response", D.handle_rpcmessage_response_contract(), tags=("C16",), timeout=30)
+    from contracts import api as A
+    for w in ("asyncio", "blocking"):
+        c = A.start_execution_api(w)
+        P.verify(c.key, c, tags=("C16",), timeout=30, label="StartExecution[%s]" % w, obl_prefix=w + ".StartExecution")
+    c = A.start_execution_api("asyncio", sync=True)
+    P.verify(c.key, c, tags=("C16",), timeout=30, obl_prefix="asyncio.StartSyncExecution")
+    c = A.send_task_success_api()
+    P.verify(c.key, c, tags=("C16",), timeout=30, obl_prefix="asyncio.SendTaskSuccess")
     P.lemma_module("lemmas/c16_limits.py")
     P.lemma("lemmas/c16_limits.py::limits_agree")
     P.native("history-limit", "natives.c16:history_limit", kind="bounded", clause="C16:",
@@ -19,7 +27,9 @@ def build(P):
     P.explanation = ("Boundary obligations at the enforcement points: change_state (state output: exactly 262144 characters is "
                      "published, one more fails with States.DataLimitExceeded and publishes nothing), handle_rpcmessage_response "
                      "(a reply of exactly 262144 is parsed, one more is never parsed), valid_name (1..80 characters, no forbidden "
-                     "character) in both front ends, and the limit constants read from the modules.")
-    P.not_decided = ["API-level limits (StartExecution input, SendTaskSuccess output, definition size) are not yet under contract; the 25000-event "
+                     "character) in both front ends, StartExecution (both front ends) / StartSyncExecution / SendTaskSuccess (an input "
+                     "or output of more than 262144 characters is refused before it is parsed and nothing is launched or delivered; "
+                     "at the limit the parser is reached), and the limit constants read from the modules.")
+    P.not_decided = ["definition size in CreateStateMachine / UpdateStateMachine is not under contract; the 25000-event "
                      "history limit in the body of notify is checked by a bounded stand-in only",
                      "the reply size is measured on the encoded bytes, the state output on characters (documented difference)"]
